@@ -216,7 +216,7 @@ func init() {
 
 func init() {
 	register(&Rule{
-		Name: "counted-loops-advance", Props: []string{"C16", "C17", "C12"}, Engine: "AST", Floor: 9,
+		Name: "counted-loops-advance", Props: []string{"C16", "C17", "C12"}, Engine: "AST", Floor: 8,
 		Doc: "every counted loop of the library moves its counter towards its bound: a loop whose condition compares a variable with `<`, `<=` or `!=` against something steps it up in its post statement, one that compares with `>` or `>=` steps it down. A counter that moves the other way indexes below zero or past the end on its second round (a panic on a connection's goroutine ends the process) or never ends",
 		Run: func(p *Prog, r *Out) {
 			n := 0
@@ -794,8 +794,8 @@ func init() {
 
 func init() {
 	register(&Rule{
-		Name: "stream-birth-and-timeout", Props: []string{"C17", "C01", "C13"}, Engine: "AST", Floor: 4,
-		Doc: "a stream the loop creates is put in the table and given its request context and origin (createStream) in the same breath, before any frame handler can dereference them; createStream initialises the context for this connection, records the frame type that created the stream and the time, and attaches the context. The request-timeout arm counts the streams that are due from the head of the table, stopping at the first that is not, and then resets, closes and removes exactly that many from the head",
+		Name: "stream-birth-and-timeout", Props: []string{"C17", "C01", "C13", "C10"}, Engine: "AST", Floor: 6,
+		Doc: "a stream the loop creates is put in the table and given its request context and origin (createStream) in the same breath, before any frame handler can dereference them; createStream initialises the context for this connection, records the frame type that created the stream and the time, and attaches the context. The request-timeout arm collects the streams that are due and whose request is still arriving, stopping at the first that is not due, resets, closes and removes each, and arms the timer again for the oldest request still arriving",
 		Run: func(p *Prog, r *Out) {
 			hs := p.decl("(*serverConn).handleStreams")
 			cs := p.decl("(*serverConn).createStream")
@@ -866,37 +866,81 @@ func init() {
 				r.bad("the request-timeout arm", p.pos(hs.Pos()), "no `case <-sc.maxRequestTimer.C` in handleStreams")
 				return
 			}
-			okCount, okDrop := false, false
-			for _, st := range arm.Body {
-				switch x := st.(type) {
-				case *ast.RangeStmt:
-					if squash(p.text(x.X)) != "strms" {
-						continue
+			// the idle timer only tells the loop; the loop ends an idle connection, and one with requests in flight is not idle
+			if ci := p.decl("(*serverConn).closeIdleConn"); ci != nil {
+				r.fn("(*serverConn).closeIdleConn")
+				says := false
+				inspectCalls(ci.Body, func(c *ast.CallExpr) {
+					if p.calleeOf(c) == "(*serverConn).writeGoAway" {
+						says = true
 					}
-					bt := stmtTexts(p, x.Body.List)
-					if len(bt) == 3 && strings.HasPrefix(bt[0], "isDue:=time.Now().After(strm.startedAt.Add(sc.maxRequestTime))") && bt[1] == "if!isDue{break}" && bt[2] == "deleteUntil++" {
+				})
+				var carm *ast.CommClause
+				ast.Inspect(hs.Body, func(n ast.Node) bool {
+					if cc, ok := n.(*ast.CommClause); ok && cc.Comm != nil && squash(p.text(cc.Comm)) == "<-sc.closer" {
+						carm = cc
+					}
+					return true
+				})
+				okIdle := false
+				if carm != nil && len(carm.Body) >= 3 {
+					if ifs, ok := carm.Body[0].(*ast.IfStmt); ok && squash(p.text(ifs.Cond)) == "len(strms)!=0" && ifs.Else == nil {
+						t := stmtTexts(p, ifs.Body.List)
+						again := len(t) == 2 && t[0] == "sc.maxIdleTimer.Reset(sc.maxIdleTime)" && t[1] == "continue"
+						bye, leave := -1, -1
+						for i, st := range carm.Body {
+							x := squash(p.text(st))
+							if strings.HasPrefix(x, "sc.writeGoAway(0,NoError,") {
+								bye = i
+							}
+							if x == "breakloop" {
+								leave = i
+							}
+						}
+						okIdle = again && bye > 0 && leave > bye
+					}
+				}
+				r.check(!says && okIdle, "a connection with requests in flight is not idle", p.pos(ci.Pos()), "closeIdleConn only signals; case <-sc.closer: if len(strms) != 0 { idle timer again; continue }; GOAWAY(NO_ERROR); break loop", "the idle timer again ends the connection on its own (GOAWAY from the timer's goroutine, or the loop leaving with streams in the table): a request that takes longer than IdleTimeout to answer is named in the GOAWAY as accepted and then cut off without its response")
+			}
+			okCount, okDrop, okArm := false, false, false
+			for _, st := range arm.Body {
+				x, ok := st.(*ast.RangeStmt)
+				if !ok {
+					continue
+				}
+				bt := stmtTexts(p, x.Body.List)
+				switch squash(p.text(x.X)) {
+				case "strms":
+					if len(bt) == 2 && bt[0] == "if!time.Now().After(strm.startedAt.Add(sc.maxRequestTime)){break}" && bt[1] == "if!strm.responded{due=append(due,strm)}" {
 						okCount = true
 					}
-				case *ast.ForStmt:
-					if x.Cond == nil || squash(p.text(x.Cond)) != "deleteUntil>0" {
-						continue
+					if len(bt) >= 4 && bt[0] == "ifstrm.origType!=FrameHeaders||strm.responded{continue}" && bt[len(bt)-1] == "break" {
+						rs := false
+						for _, y := range bt {
+							if y == "sc.maxRequestTimer.Reset(when)" {
+								rs = true
+							}
+						}
+						okArm = rs && hasStmt(p, x.Body.List, "reqTimerArmed=true") && hasStmt(p, x.Body.List, "when:=time.Until(strm.startedAt.Add(sc.maxRequestTime))")
 					}
-					bt := stmtTexts(p, x.Body.List)
-					first := len(bt) > 0 && bt[0] == "strm:=strms[0]"
-					cl, dec := -1, -1
+				case "due":
+					rs, st2, cl := -1, -1, -1
 					for i, y := range bt {
-						if y == "closeStream(strm)" {
+						switch y {
+						case "sc.resetStream(strm,StreamCanceled)":
+							rs = i
+						case "strm.SetState(StreamStateClosed)":
+							st2 = i
+						case "closeStream(strm)":
 							cl = i
 						}
-						if y == "deleteUntil--" {
-							dec = i
-						}
 					}
-					okDrop = first && cl > 0 && dec > cl
+					okDrop = rs >= 0 && st2 > rs && cl > st2
 				}
 			}
-			r.check(okCount, "the timeout arm counts the due streams from the head and stops at the first that is not", p.pos(arm.Pos()), "for _, strm := range strms { isDue := ...; if !isDue { break }; deleteUntil++ }", "the request-timeout arm no longer counts exactly the leading streams whose time is up: a stream that is not due is reset, or one that is due is left")
-			r.check(okDrop, "the timeout arm drops exactly that many from the head", p.pos(arm.Pos()), "for deleteUntil > 0 { strm := strms[0]; ...; closeStream(strm); deleteUntil-- }", "the request-timeout arm no longer takes, closes and removes the head of the table once per counted stream: it indexes an empty table (a panic on the stream loop) or resets streams that are not due")
+			r.check(okCount, "the timeout arm collects the streams that are due and still arriving, and stops at the first that is not due", p.pos(arm.Pos()), "for _, strm := range strms { if !due { break }; if !strm.responded { due = append(due, strm) } }", "the request-timeout arm no longer collects exactly the leading streams whose time is up and whose request has not arrived in full: a request that is complete is reset under its handler (the response is thrown away), a stream that is not due is reset, or one that is due is left")
+			r.check(okDrop, "each collected stream is reset, closed and removed", p.pos(arm.Pos()), "for _, strm := range due { resetStream; SetState(Closed); closeStream }", "the request-timeout arm no longer resets, closes and removes each stream it collected, in that order")
+			r.check(okArm, "the timer is armed again for the oldest request still arriving", p.pos(arm.Pos()), "first strm with origType == HEADERS and !responded: reqTimerArmed = true; Reset(time.Until(startedAt + limit)); break", "the request timer is no longer re-armed for the oldest request that is still arriving: armed for a stream that is merely slow to answer it fires at once, again and again; not armed at all, a request that never completes is never timed out")
 		},
 	})
 }
